@@ -2,6 +2,8 @@ package c05
 
 import (
 	"fmt"
+	"github.com/rulego/streamsql"
+	"github.com/rulego/streamsql/types"
 	"runtime"
 	"sort"
 	"strconv"
@@ -26,6 +28,7 @@ type Case struct {
 	Solo     []int     `json:"solo,omitempty"`   // history positions replayed alone on a fresh instance
 	Load     int       `json:"load,omitempty"`   // > 0: ordering-under-load run with this many rows
 	Throttle bool      `json:"throttle,omitempty"`
+	Expand   bool      `json:"expand,omitempty"`    // load run: expand overflow strategy with a tiny input buffer (channel migrations)
 	SlowChan bool      `json:"slow_chan,omitempty"` // load run: the channel consumer stalls now and then, so the 100-slot channel overflows
 }
 
@@ -442,6 +445,7 @@ func genCase(t *rapid.T) Case {
 		case 2:
 			c.SlowChan = true
 		}
+		c.Expand = rapid.Bool().Draw(t, "loadexpand")
 	}
 	c.Items = genItems(t, c.Load > 0)
 	c.Where = genWhere(t)
@@ -564,9 +568,19 @@ type asyncOut struct {
 // driveAsync feeds rows through Emit on a fresh instance and collects the sync-sink and channel
 // sequences. wantRows is the number of results that must reach the sync sink (from the EmitSync
 // instance); hasBarrier tells whether the last row is a barrier that the reference accepts.
-func driveAsync(q string, rows []map[string]any, pauses []int, wantRows int, hasBarrier bool, slowSink, throttle, slowChan bool) asyncOut {
+func driveAsync(q string, rows []map[string]any, pauses []int, wantRows int, hasBarrier bool, slowSink, throttle, slowChan bool, expand ...bool) asyncOut {
 	var out asyncOut
-	in, err := run.Open(q)
+	var opts []streamsql.Option
+	if len(expand) > 0 && expand[0] {
+		// expand strategy, tiny input buffer, ceiling above the load: the channel is migrated many times, nothing is dropped
+		pc := types.DefaultPerformanceConfig()
+		pc.BufferConfig.DataChannelSize = 8
+		pc.BufferConfig.MaxBufferSize = 1 << 20
+		pc.OverflowConfig.Strategy = "expand"
+		pc.OverflowConfig.ExpansionConfig = types.ExpansionConfig{GrowthFactor: 1.2, MinIncrement: 8, TriggerThreshold: 0.5, ExpansionTimeout: 5 * time.Second}
+		opts = []streamsql.Option{streamsql.WithCustomPerformance(pc)}
+	}
+	in, err := run.Open(q, opts...)
 	if err != nil {
 		out.err = err
 		return out
@@ -894,7 +908,10 @@ func runLoad(c Case, q string, bar gen.Row, res *pbt.Result) {
 		}
 	}
 	e.Stop()
-	o := driveAsync(q, mk(), nil, len(exp), bar != nil, true, c.Throttle, c.SlowChan)
+	o := driveAsync(q, mk(), nil, len(exp), bar != nil, true, c.Throttle, c.SlowChan, c.Expand)
+	if c.Expand {
+		res.Class("load-expand")
+	}
 	if o.err != nil {
 		return
 	}
